@@ -13,13 +13,46 @@ from .simfs import R
 SHM = "/dev/shm" if os.path.isdir("/dev/shm") else None
 
 
+FIXED_BASE = "/dev/shm/verifsim-fixed"
+_PRIVATE = {"pid": None}
+
+
+def enter_private_scratch():
+    """Give this process a private tmpfs at a fixed absolute path (mount
+    namespace), so that sandbox paths -- which leak into symlink targets,
+    wire messages and hash orders -- are identical in every process.  Falls
+    back to a per-pid directory when that is not permitted."""
+    pid = os.getpid() if not hasattr(R, "getpid") else R.getpid()
+    if _PRIVATE["pid"] == pid:
+        return True
+    if os.environ.get("VERIF_NO_UNSHARE") == "1" or SHM is None:
+        return False
+    try:
+        import ctypes
+        os.unshare(os.CLONE_NEWNS)
+        libc = ctypes.CDLL("libc.so.6", use_errno=True)
+        if libc.mount(b"none", b"/", None, 0x4000 | 0x40000, None) != 0:
+            return False
+        if not os.path.isdir(FIXED_BASE):
+            os.makedirs(FIXED_BASE, exist_ok=True)
+        if libc.mount(b"tmpfs", FIXED_BASE.encode(), b"tmpfs", 0,
+                      b"size=4g") != 0:
+            return False
+        _PRIVATE["pid"] = pid
+        return True
+    except (OSError, AttributeError):
+        return False
+
+
 def scratch_base():
+    pid = R.getpid() if hasattr(R, "getpid") else os.getpid()
+    if _PRIVATE["pid"] == pid:
+        return FIXED_BASE
     base = SHM
     if base is None:
         import tempfile
         base = tempfile.gettempdir()
-    d = os.path.join(base, f"verifsim-{R.getpid() if hasattr(R, 'getpid') else os.getpid()}")
-    return d
+    return os.path.join(base, "verifsim-%07d" % pid)
 
 
 class Sandbox:
